@@ -77,7 +77,7 @@ pub fn tm_to_json(t: &Tm) -> Value {
     match t {
         Tm::None => json!({"k": "none"}),
         Tm::Atom(s) => json!({"k": "atom", "s": s}),
-        Tm::Int(n, e) => json!({"k": "int", "n": n, "e": e}),
+        Tm::Int(n, e) => json!({"k": "int", "n": n, "e": e, "s": ""}),
         Tm::Flt(n, e, s) => json!({"k": "flt", "n": n, "e": e, "s": s}),
         Tm::Var(n, s) => json!({"k": "var", "n": n, "s": s}),
         Tm::Anon => json!({"k": "anon"}),
@@ -87,8 +87,25 @@ pub fn tm_to_json(t: &Tm) -> Value {
             "a": a.iter().map(tm_to_json).collect::<Vec<_>>(),
             "t": t.iter().map(|x| tm_to_json(x)).collect::<Vec<_>>()}),
         Tm::Bad(s) => json!({"k": "bad", "s": s}),
-        Tm::BigInt(i) => json!({"k": "bigint", "s": i.to_string()}),
-        Tm::BigFlt(b) => json!({"k": "bigflt", "s": b.to_string()}),
+        // an integer next to an n * 2^e with a small n is written the way the specification writes it (IntA)
+        Tm::BigInt(i) => {
+            for (adj, tag) in [(1i128, "+1"), (-1i128, "-1")] {
+                let base = *i as i128 - adj;
+                if base >= i64::MIN as i128 && base <= i64::MAX as i128 { if let Tm::Int(n, e) = tm_of_i64(base as i64) { return json!({"k": "int", "n": n, "e": e, "s": tag}); } }
+                if base == (i64::MAX as i128) + 1 { return json!({"k": "int", "n": 1, "e": 63, "s": tag}); }
+            }
+            json!({"k": "bigint", "s": i.to_string()})
+        }
+        // a float which is an integer below 2^53 next to an n * 2^e with a small n: the specification's FltA
+        Tm::BigFlt(b) => {
+            let f = f64::from_bits(*b);
+            if f.is_finite() && f.fract() == 0.0 && f.abs() <= 9007199254740992.0 {
+                for (adj, tag) in [(1.0f64, "+1"), (-1.0f64, "-1")] {
+                    if let Tm::Flt(n, e, t) = tm_of_f64(f - adj) { if t.is_empty() && (f - adj) + adj == f { return json!({"k": "flt", "n": n, "e": e, "s": tag}); } }
+                }
+            }
+            json!({"k": "bigflt", "s": b.to_string()})
+        }
     }
 }
 
